@@ -184,6 +184,47 @@ func runStrings() {
 	for m := 0; m < 4; m++ {
 		one(nil, "empty", m)
 	}
+	// a value copy of a string (b := *a) set to another value is another string: the original
+	// keeps its value and its encoding (a template entry copied for each element of a listing)
+	for i, pair := range [][2]string{{"LPT1:", "IPC"}, {"A:", "IPC"}, {"TEMPLATE.TXT", "A"}, {"ABCDEFGH.IJK", "ZYXWVUTS.RQP"}, {"x", ""}, {"", "later"}} {
+		for ctor := 0; ctor < 3; ctor++ {
+			var a *types.OEM_STRING
+			switch ctor {
+			case 0:
+				a = types.NewOEM_STRINGFromString(pair[0])
+			case 1:
+				a = types.NewOEM_STRING()
+				a.SetString(pair[0])
+			default:
+				a = &types.OEM_STRING{}
+				a.SetString("a longer earlier value")
+				a.SetString(pair[0])
+			}
+			encA, _ := a.Marshal()
+			encA = append([]byte{}, encA...)
+			b := *a
+			b.SetString(pair[1])
+			encB, _ := b.Marshal()
+			again, err := a.Marshal()
+			r.Eval(1)
+			cs := map[string]any{"original": pair[0], "copy_set_to": pair[1], "constructor": ctor}
+			if err != nil || a.GetString() != pair[0] || !bytes.Equal(again, encA) {
+				r.Violation("OEM_STRING.SetString:value-copy-writes-through", fmt.Sprintf("a := %q; b := *a; b.SetString(%q): a now reads %q and encodes as %x (was %x)", pair[0], pair[1], a.GetString(), again, encA), cs)
+			}
+			if !bytes.Equal(encB, refString(4, []byte(pair[1]))) {
+				r.Violation("OEM_STRING.SetString:value-copy", fmt.Sprintf("the copy set to %q encodes as %x", pair[1], encB), cs)
+			}
+			// the same with the generic string type
+			sa := types.NewSMB_STRING([]byte(pair[0]))
+			sa.SetBufferFormat(4)
+			sb := *sa
+			sb.SetString(pair[1])
+			if got := string(sa.Buffer); got != pair[0] {
+				r.Violation("SMB_STRING.SetString:value-copy-writes-through", fmt.Sprintf("a := %q; b := *a; b.SetString(%q): a.Buffer now reads %q", pair[0], pair[1], got), cs)
+			}
+			r.Nontrivial(fmt.Sprintf("value-copy|%d|%d", i, ctor))
+		}
+	}
 	rng := r.Rand("OEM_STRING")
 	for t := 0; t < r.Pick(1500, 40000); t++ {
 		one(nulFree(rng, randLen(rng)), fmt.Sprintf("random#%d", t), t%4)
